@@ -60,7 +60,7 @@ type TabCfg struct {
 func baseCfg(kind string) Cfg {
 	return Cfg{Kind: kind, FDs: 1, Cmap: "4", N: 30, Names: kind == "ttf", Gsub: "liga", Gpos: "pair", Gdef: true, Tags: "x",
 		Reg: true, Weight: 400, Width: 5, Fam: "plain", Times: "both", VerHi: 1, VerLo: 0x8000, Strs: "ascii", Upm: 1000,
-		Metric: "normal"}
+		Scripts: "simple", THi: 59, TLo: 10144256, Asc: 800, Desc: -200, Gap: 90, Cap: 700, XH: 500, Ulp: -400, Ult: 200}
 }
 
 // splitTables returns the scaler type and the tables of an sfnt file.
